@@ -38,7 +38,7 @@ def bound(tier):
 
 
 def floors(tier):
-    return {"distinct_nontrivial": 50, "count:zoneA_points": 100000, "count:zoneC_points": 500, "count:recorded_calls": 100, "count:recorded_refusals": 1, "count:recorded_steps_with_retries": 20}
+    return {"distinct_nontrivial": 50, "count:zoneA_points": 100000, "count:zoneC_points": 500, "count:recorded_calls": 100, "count:recorded_refusals": 1, "count:recorded_steps_with_retries": 20, "count:recorded_updates_with_screening_iterations": 10}
 
 
 GAMMAS = [0.0, 1e-4, 0.1, 1.0, 10.0, 100.0, 1e4]
